@@ -25,22 +25,7 @@ let parse_edge t =
   | [a; b] -> (int_of_string a, int_of_string b)
   | _ -> failwith ("bad edge " ^ t)
 
-(* canonical text n:m:degrees:edges of a vertex count and the triangle bits *)
-let descr_bits (n : int) (bits : bool list) : string =
-  let b = Array.of_list bits in
-  let deg = Array.make n 0 in
-  let es = ref [] and m = ref 0 in
-  for v = 0 to n - 1 do
-    for u = 0 to v - 1 do
-      if b.(v * (v - 1) / 2 + u) then begin
-        deg.(v) <- deg.(v) + 1; deg.(u) <- deg.(u) + 1; incr m;
-        es := Printf.sprintf "%d-%d" v u :: !es
-      end
-    done
-  done;
-  Printf.sprintf "%d:%d:%s:%s" n !m (ints (Array.to_list deg)) (String.concat "," (List.rev !es))
-
-(* the same text of a DenseGraph literal: m and the degree sequence are the stored fields *)
+(* canonical text n:m:degrees:edges of a DenseGraph literal: m and the degree sequence are the stored fields *)
 let descr_dgraph (d : dgraph) : string =
   let n = int_of_nat d.dn in
   let b = Array.of_list d.dedges in
@@ -70,11 +55,11 @@ let do_p toks =
   let code = List.map int_of_string toks in
   match prufer_decode (List.map z_of_int code) with
   | Panic -> "pd=panic;pe=na"
-  | Ok (n, bits) ->
-    let pe = match prufer_encode (graph_of_bits n bits) with
+  | Ok d ->
+    let pe = match prufer_encode (graph_of_bits d.dn d.dedges) with
       | Panic -> "panic"
       | Ok c -> ints (List.map int_of_z c) in
-    Printf.sprintf "pd=ok:%s;pe=%s" (descr_bits (int_of_nat n) bits) pe
+    Printf.sprintf "pd=ok:%s;pe=%s" (descr_dgraph d) pe
 
 let do_t n toks =
   let g = graph_of n (List.map parse_edge toks) in
@@ -83,7 +68,7 @@ let do_t n toks =
   | Ok c ->
     let pd = match prufer_decode c with
       | Panic -> "panic"
-      | Ok (n, bits) -> "ok:" ^ descr_bits (int_of_nat n) bits in
+      | Ok d -> "ok:" ^ descr_dgraph d in
     Printf.sprintf "pe=%s;pd=%s" (ints (List.map int_of_z c)) pd
 
 let parse_rec t =
